@@ -303,8 +303,10 @@ type Pairs<'a, T> = box_iter::BoxIter<'a, (T, T)>;
 
 /// Run `self` and `r` and return the cartesian product of their outputs.
 fn cartesian<'a, D: DataT>(l: &'a Id, r: &'a Id, cv: Cv<'a, D>) -> Pairs<'a, ValX<'a, D::V<'a>>> {
-    flat_map_with(l.run(cv.clone()), cv, move |l, cv| {
-        map_with(r.run(cv), l, |r, l| (l, r))
+    flat_map_with(l.run(cv.clone()), cv, move |l, cv| match l {
+        // do not run `r` if `l` failed, and report the error even if `r` is empty
+        Err(e) => box_once((Err(e.clone()), Err(e))),
+        l => map_with(r.run(cv), l, |r, l| (l, r)),
     })
 }
 
